@@ -21,9 +21,13 @@ def sweep(ctx, key, build, section_name, blocks=BLOCKS, stride=1, vias=("file",)
     end = text0.index("\n}", start) + 3
     ref = impl.model_outcome(text0, "file", None, drop, "full")
     if ref[0] != "ok":
-        from .core import HarnessFault
+        # the un-padded chart is well-formed by construction: its rejection is the code's doing, not the harness's
+        from . import refmodel
 
-        raise HarnessFault("block sweep: the un-padded chart is not accepted: %r" % (ref[:2],))
+        ctx.case(("blocks", section_name, "unpadded"))
+        ctx.evaluations += 1
+        e1.check_model(ctx, key, text0, refmodel.model(text0), msg="the un-padded chart of the block sweep (well-formed) is not accepted", drop=drop)
+        return 0
     n = 0
     for B in blocks:
         for o in range(start + part, end + 1, parts * stride):
